@@ -32,7 +32,7 @@ from ..att.ledgergen import LedgerGen, pubkeys_variants, CHAIN_VARIANTS as L_CHA
 from ..att.sgxgen import SgxGen, CHAIN_VARIANTS as S_CHAINS
 
 # -- menus (name -> value); the quick tier takes the names listed in Q_* ---------------------
-EDGE_BYTES = [0x30, 0x39, 0x3a, 0x0a, 0x00, 0xff]
+EDGE_BYTES = [0x30, 0x39, 0x3a, 0x0a, 0x00, 0x07, 0xff]
 UI_VARIANTS = {
     # name: (header, attested key, length change, class) ; class: ok | foreign | open
     "exact": (L.UI_HEADER, "own", 0, "ok"),
@@ -147,7 +147,8 @@ class C08(Check):
             "foreign, other version} x length {exact,-1,+1 with last byte 0a/'7'/ff,+2 ending 0a,"
             "+32} x platform bytes x public-keys file {same keys in other order/encoding, key "
             "different, missing, extra, renamed paths, malformed} x root of trust {right, wrong, "
-            "malformed, default}; boundary bytes (0,9,:,newline,00,ff) right after each textual "
+            "malformed, default}; every printed field also with first byte 00, first nibble 0, all "
+            "zero, all ff; boundary bytes (0,9,:,newline,00,07,ff) right after each textual "
             "header and at the end of each message x lengths x keys x root; all really signed "
             "(secp256k1 via ecdsa, P-256/X.509 via cryptography); Ledger and SGX commands; all calls "
             "of a case in one process on the same three paths with replaced contents, plus every "
@@ -197,8 +198,9 @@ class C08(Check):
         self.m_sc = S_CHAINS if t else Q_S_CHAINS
         self.m_lroots = T_L_ROOTS if t else Q_L_ROOTS
         self.m_sroots = S_ROOTS if t else Q_S_ROOTS
-        self.lg = LedgerGen(Rng("c08-ledger"))
-        self.sg = SgxGen(Rng("c08-sgx"))
+        self.lgs = {p: LedgerGen(Rng("c08-ledger"), p) for p in L.VALUE_PROFILES}
+        self.sgs = {p: SgxGen(Rng("c08-sgx"), profile=p) for p in L.VALUE_PROFILES}
+        self.lg, self.sg = self.lgs["seeded"], self.sgs["seeded"]
         self.keysets = self.lg.edge_keysets(Rng("c08-keysets"), EDGE_BYTES)
         self.pkvs = {"base": pubkeys_variants(self.lg)}
         self.m_lpk = T_PUBKEYS if t else Q_PUBKEYS
@@ -300,6 +302,9 @@ class C08(Check):
             for b in EDGE_BYTES:
                 cs.append({"kind": "edge", "plat": "ledger", "keyset": ks, "byte": b})
             cs.append({"kind": "edge", "plat": "sgx", "keyset": ks})
+        for prof in L.VALUE_PROFILES[1:]:
+            cs.append({"kind": "values", "plat": "ledger", "values": prof})
+            cs.append({"kind": "values", "plat": "sgx", "values": prof})
         for plat, dims in (("ledger", ["chain", "pubkeys", "root", "ui", "signer"]),
                            ("sgx", ["chain", "pubkeys", "root", "signer"])):
             for dim in dims:
@@ -338,6 +343,21 @@ class C08(Check):
                                              "ui": "edge-%02x" % b, "signer": list(sv),
                                              "pubkeys": pk, "root": root,
                                              "keyset": case["keyset"], "ts": ts}
+        elif k == "values":
+            # every printed field starts with 00 / a zero nibble / is all zero / all ff
+            plat = case["plat"]
+            own = "led" if plat == "ledger" else "sgx"
+            for ks in sorted(self.keysets):
+                for fmt in (["legacy", "current"] if plat == "ledger" else ["current"]):
+                    for ui in (["exact", "edge-00", "edge-07"] if plat == "ledger" else ["-"]):
+                        for ln in ("0", "+1:00"):
+                            for pk in ("same", "one-different"):
+                                v = self.base_variant(plat)
+                                v.update({"signer": [fmt, "ok", ln, own if fmt == "current" else "-"],
+                                          "pubkeys": pk, "keyset": ks, "values": case["values"]})
+                                if plat == "ledger":
+                                    v["ui"] = ui
+                                yield plat, v
         elif k == "edge":
             for sv in self.signer_variants("sgx", self.m_elen, {"current": ["ok"]}, ["sgx"]):
                 for ts in [None] + EDGE_BYTES:
@@ -374,7 +394,7 @@ class C08(Check):
         k = case["kind"]
         if k == "one":
             self.execute(case["plat"], case["v"], stats, vs, via_main=case.get("via_main", False))
-        elif k in ("ledger", "sgx", "edge", "prefix"):
+        elif k in ("ledger", "sgx", "edge", "values", "prefix"):
             inner = case["case"] if k == "prefix" else case
             shared = self.fresh_paths()
             self._built = {}
@@ -430,7 +450,7 @@ class C08(Check):
         else:
             alts = {"chain": self.m_sc[1:], "targets": self.m_st[1:], "pubkeys": self.m_spk[1:],
                     "root": self.m_sroots[1:]}
-        out = [dict(base)]
+        out = [dict(base)] + [dict(base, values=p) for p in L.VALUE_PROFILES[1:]]
         for dim, names in alts.items():
             for n in names:
                 v = dict(base)
@@ -464,7 +484,7 @@ class C08(Check):
         return base if ts is None else (base & ~0xff) | ts
 
     def build_ledger(self, v):
-        lg = self.lg
+        lg = self.lgs[v.get("values", "seeded")]
         hdr, key, lenmod, ui_class = UI_VARIANTS[v["ui"]]
         ud = it = None
         if v["ui"].startswith("edge-"):
@@ -478,14 +498,15 @@ class C08(Check):
         lenmod, fill = LENGTHS[lname]
         sg_msg = lg.signer_msg(fmt, shdr, lenmod, PLATFORMS.get(plat, b"led"),
                                self.keysets[ks][1], fill, self.timestamp_for(lg.timestamp, v.get("ts")))
-        name = ("L", v["chain"], v["targets"], v["ui"], fmt, hname, lname, plat, ks, v.get("ts"))
+        name = ("L", v["chain"], v["targets"], v["ui"], fmt, hname, lname, plat, ks, v.get("ts"),
+                v.get("values"))
         if name not in self._built:
             cert = lg.certificate(v["chain"], v["targets"], ui_msg, sg_msg)
             self._built[name] = json.dumps(cert, indent=2) + "\n"
         return self._built[name], ui_msg, sg_msg, ui_class, s_class, shdr
 
     def build_sgx(self, v):
-        sg = self.sg
+        sg = self.sgs[v.get("values", "seeded")]
         fmt, hname, lname, plat = v["signer"]
         shdr, s_class = SIGNER_HEADERS["current"][hname]
         ks = v.get("keyset", "base")
@@ -493,7 +514,8 @@ class C08(Check):
         msg = sg.message(shdr, lenmod, PLATFORMS[plat], self.keysets[ks][1], fill,
                          self.timestamp_for(sg.timestamp, v.get("ts")))
         hier = self.sroots[v["root"]][2]
-        name = ("S", v["chain"], v["targets"], hname, lname, plat, ks, v.get("ts"), hier)
+        name = ("S", v["chain"], v["targets"], hname, lname, plat, ks, v.get("ts"), hier,
+                v.get("values"))
         if name not in self._built:
             gen = sg if hier == "h" else self.other_sgx()
             cert, quote = gen.certificate(v["chain"], v["targets"], msg)
@@ -685,7 +707,8 @@ class C08(Check):
         if plat == "ledger":
             bad += self.printed_ui(sections, v, ui_msg)
             bad += self.printed_signer(sections, "Signer verified", v, sg_msg, shdr, keymap,
-                                       {"Installed Signer hash": self.lg.signer_hash_installed.hex()},
+                                       {"Installed Signer hash":
+                                        self.lgs[v.get("values", "seeded")].signer_hash_installed.hex()},
                                        "Installed Signer version")
         else:
             rb = quote[L.QUOTE_HEADER_LEN:]
@@ -720,7 +743,7 @@ class C08(Check):
         want = {"UD value": f("ud_value").hex(),
                 "Derived public key (%s)" % L.UI_PATH: f("public_key").hex(),
                 "Authorized signer hash": f("signer_hash").hex(),
-                "Installed UI hash": self.lg.ui_hash.hex(),
+                "Installed UI hash": self.lgs[v.get("values", "seeded")].ui_hash.hex(),
                 "Installed UI version": ui_msg[hl - 3:hl].decode("latin-1")}
         if len(f("signer_iteration")) == 2:
             want["Authorized signer iteration"] = str(int.from_bytes(f("signer_iteration"), "big"))
